@@ -50,8 +50,8 @@ struct weekday {
 
     constexpr auto operator-=(days const& d) noexcept -> weekday&
     {
-        _wd -= d.count();
-        _wd %= 7;
+        auto const n = (static_cast<long long>(_wd) - d.count()) % 7;
+        _wd          = static_cast<etl::uint8_t>(n < 0 ? n + 7 : n);
         return *this;
     }
 
